@@ -471,6 +471,19 @@ func runC03(c *Ctx) {
 				problems = append(problems, fmt.Sprintf("Create on a builder used again failed: %v %v", errC, errD))
 				return
 			}
+			// a third builder given its list client and its watch client separately
+			// (Lister().Client / Watcher().Client), never a common one
+			srvE := fakeapi.New()
+			srvE.Set(2, 2, labSets[1], 1)
+			bE := kcache.NewBuilder().Context(ctx).Log(pert.Log())
+			bE.Lister().Client(client.NewListClient(srvE.List)).RefreshPeriod(1000000 * time.Second)
+			bE.Watcher().Client(client.NewWatchClient(srvE.Watch))
+			cE, errE := bE.Create()
+			if errE != nil {
+				problems = append(problems, fmt.Sprintf("Create with separate list and watch clients failed: %v", errE))
+				return
+			}
+			defer func() { cE.Close() }()
 			defer func() {
 				pert.SetLevel(0)
 				cA.Close()
@@ -485,6 +498,12 @@ func runC03(c *Ctx) {
 			srvD.Delete(1, 3)
 			time.Sleep(100 * time.Millisecond)
 			pert.Barrier()
+			srvE.Set(1, 3, labSets[0], 1) // only the watch can deliver this: the refresh period is 10^6 s
+			time.Sleep(100 * time.Millisecond)
+			pert.Barrier()
+			if gotE, _ := cacheIDs(cE.Cache()); !sameInts(gotE, objIDs(srvE.Objects())) {
+				problems = append(problems, fmt.Sprintf("a controller built with separate list and watch clients holds %v, its server %v", gotE, objIDs(srvE.Objects())))
+			}
 			gotC, _ := cacheIDs(cC.Cache())
 			gotD, _ := cacheIDs(cD.Cache())
 			if want := objIDs(srvC.Objects()); !sameInts(gotC, want) {
